@@ -15,6 +15,7 @@ import (
 	"google.golang.org/protobuf/types/known/fieldmaskpb"
 
 	"github.com/smart-core-os/sc-api/go/traits"
+	"github.com/smart-core-os/sc-golang/pkg/cmp"
 	"github.com/smart-core-os/sc-golang/pkg/resource"
 	"github.com/smart-core-os/sc-golang/pkg/trait/fanspeedpb"
 	"github.com/smart-core-os/sc-golang/verifharness/lib"
@@ -156,15 +157,25 @@ func (c *fanConc) exec() (run fanConcRun, failure string) {
 		return ret
 	}, c.Sched)
 	if !run.stuck {
+		// how many events to wait for: the model's default message equivalence (percentages within 0.01) holds back a
+		// committed value that is equivalent to the one sent before it (used for waiting only, the verdict below
+		// does not depend on it: with too small a count events are missing from a stream that is only required
+		// to be a subsequence of the committed values)
 		want := 1
-		for _, cs := range run.calls {
-			for _, k := range cs {
-				if strings.HasPrefix(k.ret, "ok=") {
+		eq := cmp.Equal(cmp.FloatValueApprox(0, 0.01))
+		toPb := func(s fanState) *traits.FanSpeed {
+			return &traits.FanSpeed{Percentage: s.Pct, Preset: s.Preset, PresetIndex: s.Index, Direction: traits.FanSpeed_Direction(s.Dir)}
+		}
+		last := toPb(c.Init)
+		for _, ik := range run.order {
+			if v := run.vals[ik[0]][ik[1]]; v != nil {
+				if pb := toPb(*v); !eq(last, pb) {
 					want++
+					last = pb
 				}
 			}
 		}
-		log.settle(want) // events the model's message equivalence holds back never arrive: settle gives up when the stream is quiet
+		log.settle(want)
 		run.final = catch(func() string {
 			run.finalS = fanOf(m.FanSpeed())
 			return run.finalS.enc()
